@@ -40,7 +40,7 @@ P = {
          'redirect only under matched path+method, branch route, non-canonical path, redirect mode (R07.a); Location path is '
          'URL-quoted, query passed through (R07.b); slash-mode inheritance plumbing (R07.c); shape of normalize_path: empty segments dropped, one leading slash, trailing slash iff branch (R07.d)',
          'idempotence of normalize_path and one-hop as value statements; behaviour of werkzeug.redirect'),
- 'C08': ('interprocedural must-catch over the call graph, CFG rules, effect analysis',
+ 'C08': ('interprocedural must-catch over the call graph (incl. the closure through unprotected call sites for partial primitives), CFG rules, effect analysis',
          'user code runs under an Exception handler on every path from __call__ (R08.a); non-Response results are converted '
          'inside the same region (R08.b); re-raise only on reraise_uncaught (R08.c); no shared store on the request path (R08.d); error serialisers never use error text as a format template (R08.e); URL converters run under a handler mapping failure to no-match (R08.f)',
          'exceptions from primitive operations outside the protected region; completeness of werkzeug responses'),
@@ -60,7 +60,7 @@ P = {
          'no store to shared objects on the request path (R12.a); BoundRoute/Application immutable after set-up (R12.b); request '
          'ids come from one never-rebound itertools.count (R12.c); built-in middleware per-request self-writes inventory (R12.d)',
          'interleavings inside werkzeug/user code; memory-model questions'),
- 'C13': ('CFG exactly-one-delegate rule, sequence-order domain for wrapper order, open/hand-over pairing',
+ 'C13': ('CFG exactly-one-delegate rule, sequence-order domain for wrapper order, provenance of the wrapper sources, open/hand-over pairing',
          'every path of _dispatch_wsgi delegates once with the untouched (environ, start_response), environ is not mutated (R13.a); wrappers applied in '
          'reversed order, error-handler wrapper innermost (R13.b); opened file is handed to the response and the body is not replaced (R13.c)',
          'status line/header validity, close() semantics, byte-ness of bodies (inside werkzeug)'),
@@ -68,7 +68,7 @@ P = {
          'the joined value is the normalised, root-checked one (R14.a); every failure raises non-breaking 403/404 (R14.b); every '
          'filesystem call on the serving path is under an OSError handler (R14.c); 304 and success headers (R14.d); route shape (R14.e)',
          'byte equality of bodies, MIME guessing, date formatting'),
- 'C15': ('attribute-protocol typestate: attributes touched on next() results vs attributes every flowing class defines',
+ 'C15': ('attribute-protocol typestate: attributes touched on next() results vs attributes every flowing class defines; nullable-descriptor dereference check against the pinned werkzeug source',
          'every attribute used on a next() result is defined by BaseResponse or guarded (R15.a); pass-through by default, no request-body reader is called by a pass-through middleware (R15.b); '
          'handlers around next() re-raise (R15.c); gzip bookkeeping (R15.d)',
          'losslessness of compression, equality of decoded bodies'),
@@ -98,11 +98,30 @@ IMPLEMENTED = sorted(f[:-3].upper() for f in os.listdir(os.path.join(HERE, 'vt',
                      if f.startswith('c') and f[1:3].isdigit() and f.endswith('.py'))
 
 
+def live_clauses(pid):
+    """What the rule module itself registers (rep.decide / rep.decline / rep.rule) when run on /repo, so that the
+    manifest text cannot drift away from the rules."""
+    import importlib
+    sys.path.insert(0, HERE)
+    from vt.core import Report
+    from vt.loader import Repo
+    pm = importlib.import_module('vt.props.%s' % pid.lower())
+    rep = Report(pid, 'quick', Repo('/repo'))
+    pm.run(rep)
+    rules = '; '.join('%s: %s' % (r, d) for r, d in sorted(rep.rule_docs.items()))
+    return '; '.join(rep.decided) + ' [' + rules + ']', '; '.join(rep.declined)
+
+
 def main():
     checks = []
     na = []
     for pid in sorted(P):
         tech, decided, declined = P[pid]
+        if pid in IMPLEMENTED:
+            try:
+                decided, declined = live_clauses(pid)
+            except Exception as e:     # keep the static table text if a module cannot be run here
+                print('note: %s: using the table text (%s)' % (pid, e))
         if pid not in IMPLEMENTED:
             na.append({'property_id': pid,
                        'reason': 'static rules designed (DESIGN.md section 3, %s) but not yet implemented in this commit; '
@@ -142,7 +161,7 @@ def main():
         'engines': [{'name': 'vt', 'path': '/verif/vt', 'serves_properties': [c['property_id'] for c in checks],
                      'kind_free_text': 'repository-specific static analyser: ast/symtable loader, statement CFG with exception '
                                        'edges, CHA call graph, effect classification, set-algebra / layer-order abstract domains, '
-                                       'Dust and generated-code template analysers, regex-AST queries'}],
+                                       'Dust and generated-code template analysers, regex-AST queries; a normalising front-end (helper inlining, conditional expressions as statements, keyword/positional unification) so that equivalent spellings have one shape'}],
         'checks': checks,
         'not_applicable': na,
         'notes': 'All checks are static analysis (family fixed by the task). Every property is claimed only for the clauses named in '
